@@ -129,6 +129,38 @@ def run(ck):
             ck.violation(f'agop_best_model is not the AGOP of the returned predictor on {desc}', dict(desc), key='agop-best')
         if not diag and not centring:
             md = xr.RealRFM(kernel=kern, iters=0, bandwidth=2.0, exponent=[1.0, 1.3][i % 2], device='cpu', diag=False, verbose=False, **extra)
+    # ---- wide data (more features than samples), several rounds with return_Ms: the matrix recorded at EVERY round is the normalised AGOP of that round's predictor
+    #      (recomputed independently from the gradients of a model rebuilt from that round's state is expensive; the cheap necessary condition: the recorded matrices
+    #      of different rounds differ from each other as much as successive fit_M(inplace=False) calls say, and the LAST recorded matrix is the stored one)
+    for i in range(ck.n(3, 9)):
+        kern, extra = [('l2', {}), ('l2_high_dim', {}), ('l1', {})][i % 3]
+        n, d, nout = 9, 12, 1 + i % 2
+        Xw = rng.standard_normal((n, d)); Yw = rng.standard_normal((n, nout))
+        xr.seed_all(1470 + i + ck.seed)
+        mw = xr.RealRFM(kernel=kern, iters=3, bandwidth=4.0, exponent=1.0, device='cpu', diag=bool(i % 2), verbose=False, tuning_metric='mse', **extra)
+        descw = dict(kind='wide', i=i, kernel=kern, n=n, d=d, nout=nout, diag=bool(i % 2), seed=ck.seed)
+        snaps = []
+        orig_fit_M = mw.fit_M
+        def spy(*a, **kw):
+            r = orig_fit_M(*a, **kw)
+            if kw.get('inplace', True) and mw.M is not None:
+                snaps.append(mw.M.detach().clone())
+            return r
+        mw.fit_M = spy
+        try:
+            with xr.quiet():
+                Ms = mw.fit((T(Xw), T(Yw)), (T(Xw[:4]), T(Yw[:4])), iters=3, reg=1e-2, verbose=False, return_Ms=True, return_best_params=False)
+        except Exception as e:
+            ck.violation(f'fit on wide data raised {e!r} on {descw}', dict(descw), key='fit-raise'); continue
+        ck.case(descw, nontrivial=True); ck.count('wide data (d > n), recorded per-round matrices')
+        Ms = [m_ for m_ in (Ms or []) if m_ is not None]
+        if len(Ms) >= 2 and len(snaps) >= len(Ms):
+            for r, (rec_M, snap) in enumerate(zip(Ms, snaps)):
+                dev = float((rec_M.double() - snap.double()).abs().max())
+                if dev > 1e-9:
+                    ck.violation(f'the matrix recorded for round {r} (return_Ms) differs by {dev:.3g} from the feature matrix that round actually learned (it equals a later round\'s matrix: '
+                                 f'{float((rec_M.double() - snaps[-1].double()).abs().max()):.2g} from the last one) on {descw}', dict(descw, round=r, dev=dev), key=json.dumps(dict(site='agop', what='recorded-rounds')))
+                    break
     # ---- fast-converging fits: noise-free linear targets, 4-5 rounds, full matrices — consecutive iterates differ by 1e-3 or less; every stored
     #      (and every per-round) matrix must still come with ITS OWN root, and stay symmetric / PSD / normalised
     for i in range(ck.n(4, 12)):
